@@ -6,9 +6,10 @@
     store/file_queue.go  scanFile (the start-up replay loop)
     common/rlp/decode.go the part of the decoder that `rlp.DecodeBytes(bodyBuf, &RecordBody{Key,Val []byte})`
                          executes (Stream.Kind/readKind/readUint/List/Bytes/ListEnd, DecodeBytes' trailing check)
-  including the defects: the CRC in the head is written but never looked at by the reader, a short
-  `file.Read` at the end of the file leaves zero bytes in the buffer, and a non-EOF decode error
-  aborts the scan (=> `FileQueue.Start` panics).
+  both for the current reader (io.ReadFull + CRC check) and for the reader before the fix, including
+  its defects: the CRC in the head was written but never looked at, a short `file.Read` at the end of
+  the file left zero bytes in the buffer, and a non-EOF decode error aborts the scan
+  (=> `FileQueue.Start` panics).
 
   `FileUtilsAlign` is NOT hand-written: it is `LemoGen.Store.FileUtilsAlign`, regenerated from the Go
   source by tools/go2lean on every run.
@@ -174,9 +175,31 @@ def decodeBody (b : Bytes) : Dec :=
             else if size < rest.length then .err "MoreThanOne"
             else .ok k v
 
-/-! ### reader: `FileUtilsRead` and `scanFile` -/
+/-! ### reader: `FileUtilsRead` and `scanFile`
 
-/-- Go `file.Read(buf)` with `len buf = n` at position `off` of a regular file:
+  Two variants of `FileUtilsRead` are modelled:
+  * `scanStep` / `scan` — the code as it is NOW (after /repo commit "fix: FileUtilsRead stops at a torn
+    or corrupt record …"): head and body are read with `io.ReadFull`, a short read is the end of the
+    log, and `CheckSum(body)` must equal `head.Crc`, otherwise the record is the end of the log too;
+  * `scanStepLegacy` / `scanLegacy` — the code BEFORE that commit: plain `file.Read` (a short read at
+    the end of the file leaves the zero bytes of `make` in the buffer) and the CRC is never compared.
+    The refutation theorems are about this variant. -/
+
+/-- one bit of CRC-16/MODBUS (reflected polynomial 0xA001) -/
+def crcBit (s : Nat) : Nat := if s % 2 = 1 then (s / 2) ^^^ 40961 else s / 2
+
+/-- `n := uint8(uint16(v) ^ crc16); crc16 >>= 8; crc16 ^= MbTable[n]` — one byte, bit by bit -/
+def crcByte (s : Nat) (b : UInt8) : Nat :=
+  crcBit (crcBit (crcBit (crcBit (crcBit (crcBit (crcBit (crcBit (s ^^^ b.toNat))))))))
+
+/-- `CheckSum` (store/utils.go): initial value 0xFFFF, no final xor -/
+def crc16 (b : Bytes) : Nat := b.foldl crcByte 65535
+
+/-- `FileUtilsEncode(flag,key,val)` as the code computes it: the CRC field is `CheckSum(body)` -/
+def fileUtilsEncode (ts : Nat) (r : Record) : Bytes :=
+  encodeRecord ts (crc16 (encodeBody r.key r.val)) r
+
+/-- Go `file.Read(buf)` with `len buf = n` at position `off` of a regular file (LEGACY reader):
     `none` = (0, io.EOF); otherwise the buffer, whose unread tail keeps the zero bytes of `make`.
     A zero-length read returns (0, nil). -/
 def readAt (file : Bytes) (off n : Nat) : Option Bytes :=
@@ -185,14 +208,39 @@ def readAt (file : Bytes) (off n : Nat) : Option Bytes :=
     let av := (file.drop off).take n
     if av = [] then none else some (av ++ zeros (n - av.length))
 
+/-- `io.ReadFull(file, buf)` with the mapping `io.ErrUnexpectedEOF -> io.EOF` of the repaired reader:
+    `none` = fewer than `n` bytes left (end of the log). A zero-length read returns (0, nil). -/
+def readFull (file : Bytes) (off n : Nat) : Option Bytes :=
+  if n = 0 then some []
+  else if (file.drop off).length < n then none
+  else some ((file.drop off).take n)
+
 inductive Step where
   | eof
   | err (e : String)
   | deliver (r : Record) (advance : Nat)
   deriving DecidableEq, Repr
 
-/-- one iteration of the loop of `scanFile`: `FileUtilsRead(file, off)` + the offset arithmetic -/
+/-- one iteration of the loop of `scanFile` with the CURRENT `FileUtilsRead` -/
 def scanStep (file : Bytes) (off : Nat) : Step :=
+  match readFull file off 18 with
+  | none => .eof
+  | some hb =>
+    let flg := leVal (hb.take 4)
+    let len := leVal ((hb.drop 4).take 4)
+    let crc := leVal (hb.drop 16)        -- (bytes 8..15: time stamp, never used)
+    match readFull file (off + 18) len with
+    | none => .eof
+    | some bb =>
+      if crc16 bb % 65536 ≠ crc then .eof      -- `CheckSum(bodyBuf) != head.Crc`
+      else
+        match decodeBody bb with
+        | .eof => .eof
+        | .err e => .err e
+        | .ok k v => .deliver ⟨flg, k, v⟩ (FileUtilsAlign (GoSem.uadd 4294967296 18 len))
+
+/-- one iteration of the loop of `scanFile` with the `FileUtilsRead` BEFORE the fix -/
+def scanStepLegacy (file : Bytes) (off : Nat) : Step :=
   match readAt file off 18 with
   | none => .eof
   | some hb =>
@@ -220,18 +268,22 @@ structure ScanOut where
   recs : List Record     -- records delivered, in order
   deriving DecidableEq, Repr
 
-def scanLoop : Nat → Bytes → Nat → List Record → ScanOut
+/-- the loop of `scanFile`, for either reader -/
+def scanLoop (step : Bytes → Nat → Step) : Nat → Bytes → Nat → List Record → ScanOut
   | 0, file, off, acc => if file.length ≤ off then ⟨.eof, off, acc⟩ else ⟨.fuel, off, acc⟩
   | fuel + 1, file, off, acc =>
-    match scanStep file off with
+    match step file off with
     | .eof => ⟨.eof, off, acc⟩
     | .err e => ⟨.err e, off, acc⟩
     | .deliver r adv =>
       if adv = 0 then ⟨.hang, off, acc ++ [r]⟩
-      else scanLoop fuel file (off + adv) (acc ++ [r])
+      else scanLoop step fuel file (off + adv) (acc ++ [r])
 
-/-- `scanFile(path, 0)` -/
-def scan (file : Bytes) : ScanOut := scanLoop (file.length + 1) file 0 []
+/-- `scanFile(path, 0)` — current code -/
+def scan (file : Bytes) : ScanOut := scanLoop scanStep (file.length + 1) file 0 []
+
+/-- `scanFile(path, 0)` — code before the fix -/
+def scanLegacy (file : Bytes) : ScanOut := scanLoop scanStepLegacy (file.length + 1) file 0 []
 
 /-! ### abstract store behind the queue (bitcask + position index), last writer wins -/
 
@@ -296,10 +348,15 @@ def completed (d : Disk) (p : Promotion) : Disk :=
 
 /-- start-up on the bytes of tmp.data: `none` = the scan fails (`FileQueue.Start` panics) or never ends;
     otherwise every record the scan returns is redelivered to the store -/
-def recoverBytes (kv : Store) (walBytes : Bytes) : Option Store :=
-  match (scan walBytes).stop with
-  | .eof => some (kv.replay (scan walBytes).recs)
+def recoverWith (sc : Bytes → ScanOut) (kv : Store) (walBytes : Bytes) : Option Store :=
+  match (sc walBytes).stop with
+  | .eof => some (kv.replay (sc walBytes).recs)
   | _ => none
+
+/-- current code -/
+def recoverBytes (kv : Store) (walBytes : Bytes) : Option Store := recoverWith scan kv walBytes
+/-- code before the fix -/
+def recoverBytesLegacy (kv : Store) (walBytes : Bytes) : Option Store := recoverWith scanLegacy kv walBytes
 
 /-- what the property's observables can see: the key/value contents and the stable pointer -/
 def Disk.sameView (a b : Disk) : Prop := a.kv = b.kv ∧ a.stable = b.stable
